@@ -21,6 +21,9 @@ def run(rep, prog, tier):
     n = SR.emit(rep, 'R12.space', interps, ['transient'])
     rep.count('space_obligations', n)
     if n < 8: rep.error(f'only {n} index-space obligations in the transient path')
+    kinds = {o.kind for o in interps['transient'].obs}
+    for need in ('solver-input', 'solver-model', 'matmul'):
+        if need not in kinds: rep.error(f'no {need} obligation in the transient path: the solver call / the output products were not typed')
     m, cls = class_of(prog, CS, 'TransientSolution')
     ev = init_self(prog, new_ev(prog, OPAQUE_CIRCUIT), m, cls)
     site = prog.site(m, cls)
